@@ -5,15 +5,16 @@ LongPoll + TriggerHandler and its update listener), with only the outward edges 
     `current_hash` of every PollRequest,
   * the ThreadPoolExecutor inside the real TaskHandler is a StepExecutor (`handler._pool = StepExecutor()`): every
     submitted callable gets its own worker thread, started only when the schedule says so,
-  * two gates split a running `update_listeners` task into its three regions: a GateListener put in front of the
+  * three gates split a running `update_listeners` task into its four regions: a GateLock substituted for
+    `svc._update_lock` (a task parks in front of the real lock), a GateListener put in front of the
     handler's listener (reached after the task took the update lock and read the polled configuration) and a wrapper
     at the entry of the real TriggerHandler.new_config (reached after the listener's argument — polled + custom as
     of then — was evaluated, before anything is stored); each blocks until the schedule releases it.
 
 Ops (same JSON as the Lean driver, see Driver/ConfigSvcCommon.lean):
   poll {nc, rt, ts, hash, tps:[{path,line,tag,interp,conv,args}]}   pollFail {base, how}
-  register {path,line,tag,args,interp}   unregister {handle}   taskRead {i}   taskCall {k}   taskInstall {k}
-  applyTask {i}
+  register {path,line,tag,args,interp}   unregister {handle}   taskStart {i}   taskRead {k}   taskCall {k}
+  taskInstall {k}   applyTask {i}
 Import only after core.use_repo().
 """
 import threading
@@ -36,13 +37,15 @@ BLOCK_PROBE = 0.25    # how long a task is given to show that it is NOT blocked 
 class Job:
     def __init__(self, fn, args, future):
         self.fn, self.args, self.future = fn, args, future
-        self.phase = 'queued'         # queued | read | called | done — advanced by the schedule thread only
+        self.phase = 'queued'         # queued | pre | read | called | done — advanced by the schedule thread only
+        self.at = None                # gate the worker thread is at (set by the worker): 'lock' | 0 | 1
         self.launched = False
         self.finished = False         # set by the worker thread
         self.gated = False
         self.thread = None
         self.held = None              # configuration seen at the gate
-        self.release = [threading.Event(), threading.Event()]   # gate 0: in the gate listener, gate 1: at new_config
+        # gate 'lock': in front of the update lock, gate 0: in the gate listener, gate 1: at new_config
+        self.release = {'lock': threading.Event(), 0: threading.Event(), 1: threading.Event()}
         self.event = threading.Semaphore(0)     # signalled at gate arrival and at completion
 
 
@@ -52,6 +55,7 @@ class StepExecutor:
     def __init__(self):
         self.jobs = []
         self.hold_order = []      # jobs in the order the schedule let them read
+        self.start_order = []     # jobs in the order the schedule started them
         self.local = threading.local()
         self.shutdown_called = False
 
@@ -89,6 +93,10 @@ class StepExecutor:
         """jobs the model still counts as queued: not started, or started but not yet past the lock"""
         return [j for j in self.jobs if j.phase == 'queued']
 
+    def parked(self):
+        """jobs that ran up to the update lock (in the order the schedule started them)"""
+        return [j for j in self.start_order if j.phase == 'pre']
+
     def holders(self):
         return [j for j in self.hold_order if j.phase in ('read', 'called')]
 
@@ -108,10 +116,38 @@ def gate(executor, k, value):
     job = executor.current_job()
     if job is None or not job.gated:
         return
-    job.held = list(value)
+    job.held = list(value) if value is not None else None
+    job.at = k
     job.event.release()
     if not job.release[k].wait(WAIT):
-        raise TimeoutError('gate %d not released' % k)
+        raise TimeoutError('gate %s not released' % k)
+
+
+class GateLock:
+    """stands in for `TracepointConfigService._update_lock`: a task arriving at `with self._update_lock:` parks in
+    front of the real lock until the schedule lets it try to take it"""
+
+    def __init__(self, executor, real):
+        self.executor, self.real = executor, real
+
+    def __enter__(self):
+        gate(self.executor, 'lock', None)
+        self.real.acquire()
+        return self
+
+    def __exit__(self, *exc):
+        self.real.release()
+        return False
+
+    def acquire(self, *a, **k):
+        gate(self.executor, 'lock', None)
+        return self.real.acquire(*a, **k)
+
+    def release(self):
+        return self.real.release()
+
+    def locked(self):
+        return self.real.locked()
 
 
 def gate_new_config(executor, handler):
@@ -200,12 +236,14 @@ class SvcBench:
         self.gate = GateListener(self.exec)
         self.tps._listeners.insert(0, self.gate)
         gate_new_config(self.exec, self.deep.trigger_handler)
+        if hasattr(self.tps, '_update_lock'):
+            self.tps._update_lock = GateLock(self.exec, self.tps._update_lock)
         self.handles = []
 
     # ---- observation
     def snapshot(self):
         return {'hash': self.tps._current_hash, 'queued': len(self.exec.waiting()),
-                'holding': len(self.exec.holders()),
+                'pre': len(self.exec.parked()), 'holding': len(self.exec.holders()),
                 'installed': flatten(self.deep.trigger_handler._tp_config),
                 'custom': flatten(self.tps._custom),
                 'polled': flatten(self.tps._tracepoint_config)}
@@ -269,24 +307,38 @@ class SvcBench:
             if job.future.exception() is not None:
                 res['task_raised'] = type(job.future.exception()).__name__
             return res
-        if k == 'taskRead':
+        if k == 'taskStart':
             w = self.exec.waiting()
             if op['i'] >= len(w):
                 return {'moved': False}
             job = w[op['i']]
+            self.exec.launch(job, gated=True)
+            if not job.event.acquire(timeout=WAIT):
+                raise core.Infra('task did not reach the update lock in %s s' % WAIT)
+            if job.finished:
+                job.phase = 'done'
+                return {'moved': True, 'ran_through': True}
+            job.phase = 'pre'            # at the lock gate (or, if the code takes no lock, already at the listener)
+            self.exec.start_order.append(job)
+            return {'moved': True}
+        if k == 'taskRead':
+            w = self.exec.parked()
+            if op['k'] >= len(w):
+                return {'moved': False}
+            job = w[op['k']]
             contended = len(self.exec.holders()) > 0
-            if not job.launched:
-                self.exec.launch(job, gated=True)
-            if job.event.acquire(timeout=BLOCK_PROBE if contended else WAIT):
-                if job.finished:             # ran through without meeting the gate (no listener?)
+            if job.at == 'lock':
+                job.release['lock'].set()
+                if not job.event.acquire(timeout=BLOCK_PROBE if contended else WAIT):
+                    if not contended:
+                        raise core.Infra('task did not reach the listener in %s s' % WAIT)
+                    return {'moved': False}          # blocked on the update lock
+                if job.finished:
                     job.phase = 'done'
                     return {'moved': True, 'ran_through': True}
-                job.phase = 'read'
-                self.exec.hold_order.append(job)
-                return {'moved': True}
-            if not contended:
-                raise core.Infra('task did not reach the listener in %s s' % WAIT)
-            return {'moved': False}          # blocked on the update lock
+            job.phase = 'read'
+            self.exec.hold_order.append(job)
+            return {'moved': True}
         if k == 'taskCall':
             hs = self.exec.holders()
             if op['k'] >= len(hs) or hs[op['k']].phase != 'read':
@@ -319,8 +371,8 @@ class SvcBench:
     def close(self):
         """let every thread go"""
         for j in self.exec.jobs:
-            j.release[0].set()
-            j.release[1].set()
+            for e in j.release.values():
+                e.set()
         for j in self.exec.jobs:
             if j.thread is not None:
                 j.thread.join(2)
